@@ -106,6 +106,7 @@ static inline FlexPath* make_flexpath(Tag tag0, Tag tag1) {
     f->init(Vec2{0, 0}, 2, w, o, 0.01, tags);
     f->segment(Vec2{4, 0}, NULL, NULL, false);
     f->segment(Vec2{4, 3}, NULL, NULL, false);
+    f->scale_width = true;   // widths follow magnifications (the Python default)
     return f;
 }
 static inline RobustPath* make_robustpath(Tag tag0, Tag tag1) {
@@ -115,6 +116,7 @@ static inline RobustPath* make_robustpath(Tag tag0, Tag tag1) {
     r->init(Vec2{0, 0}, 2, w, o, 0.01, 1000, tags);
     r->segment(Vec2{4, 0}, NULL, NULL, false);
     r->segment(Vec2{4, 3}, NULL, NULL, false);
+    r->scale_width = true;
     return r;
 }
 static inline Label* make_label(Tag tag) {
